@@ -50,6 +50,7 @@ LnFree    == Scn.ln = "any"             \* conformance mode: any Lightning answe
 ReleaseByQuote == Scn.releasecheck      \* FALSE: the implementation before commit d621dd9 (must fail)
 PollNotFound == Scn.pollnotfound        \* TRUE: a variant in which a poll treats "no such payment" as a failed payment
 CheckLocked == Scn.checklocked          \* FALSE: the state check reads the two proof tables without proofsMu (before bbe32f5; must fail)
+GuardFrom == Scn.guardfrom              \* "m6": the guard is registered with the PENDING write (the code); "m7": only before the payment (must fail)
 PollGuard == Scn.pollguard              \* FALSE: the implementation before the meltsInProgress guard (must fail)
 
 VARIABLES used, pend, sigs, lqs, mqs,   \* storage
@@ -69,7 +70,8 @@ Loc0          == [a |-> "", rm |-> {}, q |-> ""]
 \* Mint.meltsInProgress: quotes between a melt request's PENDING write and its return
 \* (the entry is removed by a deferred function that takes proofsMu: pc "ret", a step of its own without a storage call)
 InProgPcs     == {"m6", "m7", "m8", "ms1", "ms2", "ms3", "r1", "r2", "r3", "i1", "i2", "i3"}
-InProgress(q) == PollGuard /\ \E p \in Procs : Kind(p) = "melt" /\ Q(p) = q /\ pc[p] \in InProgPcs \cup {"ret"}
+InProgress(q) == PollGuard /\ \E p \in Procs : Kind(p) = "melt" /\ Q(p) = q
+                                /\ pc[p] \in (InProgPcs \cup {"ret"}) \ (IF GuardFrom = "m7" THEN {"m6"} ELSE {})
 
 Init ==
   /\ used = ToSet(Scn.used)
